@@ -21,7 +21,7 @@ func init() { fw.Register(prop{}) }
 func (prop) ID() string { return "C02" }
 func (prop) Cases(tier string) int {
 	if tier == "thorough" {
-		return 15000
+		return 6000
 	}
 	return 1500
 }
